@@ -126,7 +126,8 @@ def run(case, ctx):
     types = list(xb)
     ox = [types[i] for i in rng.permutation(len(types))]
     oy = [types[i] for i in rng.permutation(len(types))]
-    mk = lambda blocks, order: geom.MultiImage({t: jnp.asarray(blocks[t]) for t in order}, D, torus)
+    conv = (lambda v: np.asarray(v)) if case["i"] % 5 == 2 else jnp.asarray  # one case in five: NumPy-backed operands
+    mk = lambda blocks, order: geom.MultiImage({t: conv(blocks[t]) for t in order}, D, torus)
     x, y = mk(xb, ox), mk(yb, oy)
     jit_rt = bool(rng.integers(0, 2))
     if jit_rt:
